@@ -73,8 +73,19 @@ func cast(from reflect.Value, to reflect.Value) (interface{}, error) {
 			return strconv.ParseUint(from.String(), 10, to.Type().Bits())
 		}
 	case reflect.Int:
-		if to.Kind() == reflect.String {
+		switch to.Kind() {
+		case reflect.String:
 			return strconv.FormatInt(from.Int(), 10), nil
+		case reflect.Uint, reflect.Uint8, reflect.Uint16, reflect.Uint32, reflect.Uint64:
+			// mapstructure converts silently, wrapping around: a number that does not fit is an error,
+			// as it is when the same number arrives as a string
+			if _, err := strconv.ParseUint(strconv.FormatInt(from.Int(), 10), 10, to.Type().Bits()); err != nil {
+				return nil, err
+			}
+		case reflect.Int8, reflect.Int16, reflect.Int32:
+			if _, err := strconv.ParseInt(strconv.FormatInt(from.Int(), 10), 10, to.Type().Bits()); err != nil {
+				return nil, err
+			}
 		}
 	}
 	return from.Interface(), nil
